@@ -602,7 +602,7 @@ impl<T: CountMinValue> CountMinSketch<T> {
         /*@C13.cm.view*/ r matches Ok(s) ==> s.img() == dec_cm(T::signed(), bytes@) && s.seed == DEFAULT_UPDATE_SEED,
         /*@C14.cm.rejects*/ r is Ok ==> cm_header_ok(bytes@) && cm_hdr_seed_hash(bytes@) == seed_hash_spec(DEFAULT_UPDATE_SEED),
         /*@C14.cm.wf*/ r matches Ok(s) ==> s.wf(),
-        /*@C14.cm.wf_total_zero*/ r matches Ok(s) ==> s.wf_total_zero(),
+        /*@C11.cm.wf_total_zero*/ r matches Ok(s) ==> s.wf_total_zero(),
     {
         proof { axiom_default_seed_hash(); }
         Self::deserialize_with_seed(bytes, DEFAULT_UPDATE_SEED)
@@ -618,7 +618,7 @@ impl<T: CountMinValue> CountMinSketch<T> {
         /*@C13.cm.view*/ r matches Ok(s) ==> s.img() == dec_cm(T::signed(), bytes@),
         /*@C14.cm.rejects*/ r is Ok ==> cm_header_ok(bytes@) && cm_hdr_seed_hash(bytes@) == seed_hash_spec(seed),
         /*@C14.cm.wf*/ r matches Ok(s) ==> s.wf(),
-        /*@C14.cm.wf_total_zero*/ r matches Ok(s) ==> s.wf_total_zero(),
+        /*@C11.cm.wf_total_zero*/ r matches Ok(s) ==> s.wf_total_zero(),
     {
         fn read_value<T: CountMinValue>(
             cursor: &mut SketchSlice<'_>,
